@@ -639,7 +639,8 @@ def text_extraction_sinks(M: "MatcherNF"):
 
 
 def rule_text_extraction(rep: Report, rid="C03.text") -> None:
-    rule_roles(rep, rid_text=rid, want=("text",))
+    # "keywords are reported as written": the keyword reported is the first listed one the line starts with (lists in listed order)
+    rule_roles(rep, rid=rid.split(".")[0] + ".keyword", rid_text=rid)
     # doc string opener: media type = rest after the delimiter
     rule_docstring_fsm(rep, rid, only_text=True)
 
